@@ -84,7 +84,7 @@ func setup() {
 
 type obj struct {
 	r    *round.Round
-	slot bool  // the goroutine driving this object holds a CPU slot (concurrent scenarios)
+	sem  chan struct{} // the goroutine driving this object holds a token of this semaphore
 	nb   int32 // notarized blocks handed out: every AddNB call adds a NEW block (own hash)
 	help *helper
 }
@@ -168,8 +168,15 @@ func newHelper() *helper {
 	return h
 }
 
+// seqSlots bounds the number of sequential traces that are RUNNING (not waiting for a watchdog), so
+// that a call which can return is never queued behind thousands of runnable goroutines.
+var seqSlots = make(chan struct{}, 32)
+
 // guarded runs f on another goroutine; false = it did not return within the watchdog.
-// o.slot: the caller holds a CPU slot, which is given back while waiting for a slow call.
+// The caller holds a token of o.sem, which is given back while waiting for a slow call.
+// A call is declared hung only if it is still outstanding after the watchdog period AND the
+// scheduler is responsive at that moment (a 1 ms sleep does not oversleep by more than 50 ms);
+// otherwise the wait is extended (up to 6 periods).
 func (o *obj) guarded(f func()) bool {
 	var done <-chan struct{}
 	if o.help != nil {
@@ -180,31 +187,40 @@ func (o *obj) guarded(f func()) bool {
 		go func() { f(); close(d) }()
 		done = d
 	}
-	dead := func() bool {
-		if o.help != nil {
-			*o.help = *newHelper() // the old goroutine is stuck inside f for ever
-		}
-		return false
-	}
-	if o.slot {
-		q := time.NewTimer(20 * time.Millisecond)
-		select {
-		case <-done:
-			q.Stop()
-			return true
-		case <-q.C:
-		}
-		<-cpuSlots
-		defer func() { cpuSlots <- struct{}{} }()
-	}
-	t := time.NewTimer(watchdog)
-	defer t.Stop()
+	q := time.NewTimer(20 * time.Millisecond)
 	select {
 	case <-done:
+		q.Stop()
 		return true
-	case <-t.C:
-		return dead()
+	case <-q.C:
 	}
+	if o.sem != nil {
+		<-o.sem
+		defer func() { o.sem <- struct{}{} }()
+	}
+	for attempt := 0; attempt < 6; attempt++ {
+		t := time.NewTimer(watchdog)
+		select {
+		case <-done:
+			t.Stop()
+			return true
+		case <-t.C:
+		}
+		t0 := time.Now()
+		time.Sleep(time.Millisecond)
+		if time.Since(t0) < 50*time.Millisecond {
+			select {
+			case <-done:
+				return true
+			default:
+			}
+			break
+		}
+	}
+	if o.help != nil {
+		*o.help = *newHelper() // the old goroutine is stuck inside f for ever
+	}
+	return false
 }
 
 type pair struct {
@@ -310,7 +326,10 @@ func shapeOf(e rec.M) string {
 
 // runSeq executes one sequence on a fresh round; it stops at the first call that does not return.
 func runSeq(ops []Op) []emitted {
+	seqSlots <- struct{}{}
+	defer func() { <-seqSlots }()
 	o := newObj()
+	o.sem = seqSlots
 	last := proj{shares: []pair{}}
 	out := []emitted{{rec.M{"ev": "New", "count": 1}, "new", false}}
 	for _, op := range tagShares(ops, 0) {
@@ -393,6 +412,7 @@ func (e *engine) run(j *job) bool {
 	atomic.AddInt64(&e.gen, 1)
 	start := time.Now()
 	released := false
+	periods := 1
 	defer func() {
 		if released {
 			cpuSlots <- struct{}{}
@@ -407,8 +427,13 @@ func (e *engine) run(j *job) bool {
 		}
 		if spins&1023 == 0 {
 			el := time.Since(start)
-			if el > watchdog {
-				return false
+			if el > time.Duration(periods)*watchdog {
+				t0 := time.Now()
+				time.Sleep(time.Millisecond)
+				if time.Since(t0) < 50*time.Millisecond || periods >= 6 {
+					return atomic.LoadInt32(&j.done) == int32(e.n)
+				}
+				periods++ // the scheduler itself is lagging: wait another period
 			}
 			if el > 20*time.Millisecond {
 				if !released {
@@ -483,7 +508,7 @@ func runConc(b Behaviour, reps int) []emitted {
 	var sb strings.Builder
 	for r := 0; r < reps; r++ {
 		o := newObj()
-		o.slot = true
+		o.sem = cpuSlots
 		o.help = help
 		last := proj{shares: []pair{}}
 		var pre []emitted
@@ -615,7 +640,6 @@ func Run(a common.Args) {
 			}
 		}
 		okPrefix := map[string]bool{"[]": true}
-		sem := make(chan struct{}, 2048)
 		for k := 1; k <= maxLen; k++ {
 			cand := map[string][]Op{}
 			full := map[string]int{} // prefix that is a complete behaviour -> index
@@ -636,10 +660,8 @@ func Run(a common.Args) {
 			next := map[string]bool{}
 			for ks, ops := range cand {
 				wg.Add(1)
-				sem <- struct{}{}
 				go func(ks string, ops []Op) {
 					defer wg.Done()
-					defer func() { <-sem }()
 					evs := runSeq(ops)
 					lastEv := evs[len(evs)-1].m
 					h1, _ := lastEv["hang"].(bool)
